@@ -313,6 +313,17 @@ type c48Signing struct {
 	respCert  *x509.Certificate // certificate whose subject/key names the responder
 	respKey   *ref.OCSPKey
 	noEKU     bool
+	// look-alike of the issuing CA (mode "forged-embedded"): which fields it
+	// copies and who signed it (self / unrelated / twin / issuer(control))
+	forgedCopy, forgedBy string
+}
+
+// desc renders the signing mode for messages.
+func (s c48Signing) desc() string {
+	if s.forgedCopy != "" || s.forgedBy != "" {
+		return fmt.Sprintf("%s[look-alike copies %s, signed by %s]", s.mode, s.forgedCopy, s.forgedBy)
+	}
+	return s.mode
 }
 
 // c48DrawSigning picks who signs and what is embedded, relative to issuing CA ca.
@@ -328,7 +339,9 @@ func c48DrawSigning(rt *rapid.T, p *ref.OCSPPool, ca *ref.OCSPCA) c48Signing {
 		k := rapid.IntRange(1, len(p.CAs)-1).Draw(rt, "foreignCA")
 		return p.CAs[(ca.ID+k)%len(p.CAs)]
 	}
-	switch rapid.IntRange(0, 11).Draw(rt, "mode") {
+	switch rapid.IntRange(0, 15).Draw(rt, "mode") {
+	case 12, 13, 14, 15:
+		return c48DrawForged(rt, p, ca)
 	case 0, 1, 2:
 		return c48Signing{mode: "direct", priv: ca.Key, respCert: ca.Cert, respKey: ca.Key}
 	case 3, 4, 5:
@@ -370,6 +383,60 @@ func c48DrawSigning(rt *rapid.T, p *ref.OCSPPool, ca *ref.OCSPCA) c48Signing {
 		r := pickResp(ca.ID, true, "resp")
 		return c48Signing{mode: "delegated", priv: r.Key, embedded: r.Cert, embKey: r.Key, embSigner: ca.Key, respCert: r.Cert, respKey: r.Key}
 	}
+}
+
+// c48CopySets are the directed look-alike field sets; further ones are drawn at random.
+var c48CopySets = []int{
+	0,
+	ref.OCSPCopySubject,
+	ref.OCSPCopySKID,
+	ref.OCSPCopySubject | ref.OCSPCopySKID,
+	ref.OCSPCopySubject | ref.OCSPCopySKID | ref.OCSPCopyAKID,
+	ref.OCSPCopySubject | ref.OCSPCopyAKID,
+	ref.OCSPCopySubject | ref.OCSPCopySKID | ref.OCSPCopySerial | ref.OCSPCopyIssuerName,
+	ref.OCSPCopySubject | ref.OCSPCopyUsage | ref.OCSPCopyCA,
+	ref.OCSPCopyAll,
+	ref.OCSPCopyAll,
+}
+
+// c48DrawForged: the response is signed by an attacker key and embeds a
+// look-alike of the issuing CA carrying that key.  The look-alike is
+// self-signed, signed by an unrelated or the same-name/other-key CA, or (the
+// control) really signed by the issuing CA's key.
+func c48DrawForged(rt *rapid.T, p *ref.OCSPPool, ca *ref.OCSPCA) c48Signing {
+	spec := ref.OCSPForgeSpec{Target: ca.ID}
+	if rapid.IntRange(0, 3).Draw(rt, "copyRandom") == 0 {
+		spec.Copy = rapid.IntRange(0, ref.OCSPCopyAll).Draw(rt, "copyMask")
+	} else {
+		spec.Copy = rapid.SampledFrom(c48CopySets).Draw(rt, "copySet")
+	}
+	ak := p.AttackerKeys()
+	spec.Key = ak[rapid.IntRange(0, len(ak)-1).Draw(rt, "attackerKey")].ID
+	by := ""
+	switch rapid.IntRange(0, 9).Draw(rt, "forgedBy") {
+	case 0, 1, 2, 3:
+		spec.By, by = "self", "self"
+	case 4, 5:
+		if ca.Twin >= 0 {
+			spec.By, spec.ByCA, by = "ca", ca.Twin, "twin"
+			break
+		}
+		fallthrough
+	case 6, 7:
+		o := (ca.ID + rapid.IntRange(1, len(p.CAs)-1).Draw(rt, "forgedByCA")) % len(p.CAs)
+		spec.By, spec.ByCA, by = "ca", o, "unrelated"
+		if o == ca.Twin {
+			by = "twin"
+		}
+	default:
+		spec.By, by = "issuer", "issuer(control)"
+	}
+	f, err := p.Forge(spec)
+	if err != nil {
+		rt.Fatalf("harness: %v", err)
+	}
+	return c48Signing{mode: "forged-embedded", priv: f.Key, embedded: f.Cert, embKey: f.Key, embSigner: f.SignerKey, respCert: f.Cert, respKey: f.Key,
+		forgedCopy: ref.OCSPCopyLabel(spec.Copy), forgedBy: by}
 }
 
 // c48DrawVerifier picks the issuer argument of ParseResponse[ForCert].
